@@ -21,6 +21,11 @@ impl Capture {
     pub fn get(&self) -> String {
         self.out.borrow().clone()
     }
+    pub fn push_line(&self, line: &str) {
+        let mut o = self.out.borrow_mut();
+        o.push_str(line);
+        o.push('\n');
+    }
     pub fn saw_bad_utf8(&self) -> bool {
         *self.bad_utf8.borrow()
     }
